@@ -395,6 +395,10 @@ cdef class ParticleArray:
     def clear(self):
         """Clear all data held by this array """
         self.properties = {'tag':IntArray(0), 'pid':IntArray(0), 'gid':UIntArray(0)}
+        # forget the book-keeping of the properties that are gone.
+        self.stride = {}
+        self.output_property_arrays = []
+        self.num_real_particles = 0
         tag_def_values = self.default_values['tag']
         self.default_values.clear()
         self.default_values = {'tag':tag_def_values, 'pid':0, 'gid':_UINT_MAX}
